@@ -122,6 +122,8 @@ func Run(sh *Shared, fn *ssa.Function, opt Options) *Result {
 			onceDone: map[string]bool{},
 			mlocks:   map[string]*lockState{},
 			condGen:  map[string]int{},
+			condWaiters:  map[string][]int{},
+			condReleased: map[string]map[int]bool{},
 			wgCount:  map[string]int{},
 		}
 		if len(prefix) == 0 {
